@@ -71,20 +71,22 @@ class Checker(CommandMixin):
 
     def _new_mb(self, k, ev, seed=None):
         self.inc_n += 1
-        rec = {"n": self.inc_n, "adds": [], "admitted": [], "reopened": set(), "closed_sides": set(),
+        rec = {"n": self.inc_n, "adds": [], "admitted": [], "attempted": [], "reopened": set(), "closed_sides": set(),
                "act": None, "any": None, "sub_left": None, "seeded": seed is not None}
         if seed is not None:
             rec["adds"] = [tuple(x[:4]) for x in seed.msgs]
             rec["admitted"] = spec.first_two([[s.side] for s in seed.sides])
+            rec["attempted"] = [s.side for s in seed.sides]
             rec["act"] = rec["any"] = seed.updated
         self.mb_inc[k] = rec
         return rec
 
     def _new_np(self, k, mailbox, ev, seed=None):
         self.inc_n += 1
-        rec = {"n": self.inc_n, "mailbox": mailbox, "told": set(), "admitted": []}
+        rec = {"n": self.inc_n, "mailbox": mailbox, "told": set(), "admitted": [], "attempted": []}
         if seed is not None:
             rec["admitted"] = spec.first_two([[s.side] for s in seed.sides])
+            rec["attempted"] = [s.side for s in seed.sides]
         prev = self.np_ids.get(mailbox)
         if prev is not None and prev != (k[0], k[1], rec["n"]) and ev is not None:
             self.v("C03", "fresh-mailbox-per-incarnation", ev,
